@@ -58,6 +58,7 @@ type Kernel struct {
 	// M1: goroutine ids of the tasks, and how many of them are blocked on a lock of the code
 	// under test (they are neither running nor parked: only an unlock can wake them)
 	gids    map[int64]bool
+	gidName map[int64]string
 	blocked int
 
 	logH      hash.Hash
@@ -107,7 +108,11 @@ func (k *Kernel) LogHash() string   { return hex.EncodeToString(k.logH.Sum(nil)[
 func (k *Kernel) SchedHash() string { return hex.EncodeToString(k.schedH.Sum(nil)[:12]) }
 
 // Go starts a task goroutine (M1 counts it; in M2 it is simply a bubble goroutine).
-func (k *Kernel) Go(fn func()) {
+func (k *Kernel) Go(fn func()) { k.GoNamed("", fn) }
+
+// GoNamed is Go for a task with a fixed name: seams that do not know which task they are
+// in (YieldCurrent) park it under that name.
+func (k *Kernel) GoNamed(name string, fn func()) {
 	k.mu.Lock()
 	k.running++
 	k.mu.Unlock()
@@ -116,12 +121,17 @@ func (k *Kernel) Go(fn func()) {
 		k.mu.Lock()
 		if k.gids == nil {
 			k.gids = map[int64]bool{}
+			k.gidName = map[int64]string{}
 		}
 		k.gids[id] = true
+		if name != "" {
+			k.gidName[id] = name
+		}
 		k.mu.Unlock()
 		defer func() {
 			k.mu.Lock()
 			delete(k.gids, id)
+			delete(k.gidName, id)
 			k.running--
 			k.cond.Broadcast()
 			k.mu.Unlock()
@@ -138,6 +148,20 @@ func goid() int64 {
 	}
 	n, _ := strconv.ParseInt(f[1], 10, 64)
 	return n
+}
+
+// YieldCurrent parks the calling goroutine at a seam of the given kind if it is a named task
+// (GoNamed); any other goroutine passes through.
+func (k *Kernel) YieldCurrent(kind, detail string) {
+	id := goid()
+	k.mu.Lock()
+	name := k.gidName[id]
+	k.mu.Unlock()
+	if name == "" {
+		return
+	}
+	k.Count("seam_"+kind, 1)
+	k.Park(name, kind, detail, nil)
 }
 
 // BlockBegin is called (through the lock shim) by a goroutine that is about to wait for a
